@@ -24,14 +24,25 @@
      run_totals_sim                                       C19 total_bytes_payload, message_counters, first_last_printed
      lookup_tags, printed_events  (A2 / A3, tags)         C01 merge_is_stable_sort, stable_sort_perm
      spec_sources_sorted                                  hypothesis of C01 merge_is_stable_sort
-     program_correct                                      C06 reachable_run, final_output_unique *)
+     program_correct                                      C06 reachable_run, final_output_unique
+   Source kinds other than year-bearing text (second stage):
+     records_worker_correct, records_spec_sorted          C08 records_sent_K2_correct, table_as_bytes_is_render, stable_sort_sorted
+     index_recs_tv, tv_leb_inst                           time value of the i-th entry = decode of its slice; order of time values = order of instants
+     evtx_worker_correct, evtx_spec_sorted                C10 evtx_out_correct, spec_events_sorted
+     journal_worker_correct                               C09 journal_out_correct_l
+     nl_split_lines, kmsg_*_sim                           the printer's wf_msg for event / journal / record messages
+     yearless_instants, yearless_true_instants            C11 walk_length, assign_true_years *)
 From Coq Require Import List NArith ZArith Bool Arith Lia Sorted Permutation.
 Import ListNotations.
 From S4.Base Require Import Bytes Chunk.
 From S4.Spec Require Import LinesSpec WindowSpec.
+From S4.Spec Require RecordsSpec JournalSpec.
 From S4.Model Require Lines Syslines Search Merge Coord Strftime Print Summary Gate.
+From S4.Model Require Calendar Year Records RecordRender LayoutDetect Evtx Journal.
+From S4.Gen Require FixedStructTables.
 From S4.Model Require Import Program.
 From S4.Proofs Require LinesProofs SyslinesProofs SearchProofs MergeProofs CoordProofs PrintSem PrintVariants PrintStrip SummaryProofs.
+From S4.Proofs Require StableSort RecordsProofs RecordRenderProofs FixedStructTablesOk EvtxProofs JournalWindow YearProofs.
 
 
 (* ######################################################################## part 1 *)
@@ -678,7 +689,7 @@ End Reader.
 (* ================================================================ A3: reader message ~ spec message *)
 
 Definition msg_sim (m1 m2 : Print.msg) : Prop :=
-  Print.m_kind m1 = Print.KSys /\ Print.m_kind m2 = Print.KSys /\
+  Print.m_kind m1 = Print.m_kind m2 /\
   Print.m_t m1 = Print.m_t m2 /\ Print.flat_lines m1 = Print.flat_lines m2 /\
   Print.m_beg m1 = Print.m_beg m2 /\ Print.m_end m1 = Print.m_end m2 /\
   PrintVariants.wf_full m1 /\ PrintVariants.wf_full m2 /\ (Print.m_beg m1 <= Print.m_end m1)%nat.
@@ -725,7 +736,7 @@ Section Sim.
       unfold Lines.bytes_of. apply concat_nonempty.
       + destruct ln; [congruence|discriminate].
       + apply Forall_map. exact P. }
-    unfold msg_sim. split; [reflexivity|]. split; [reflexivity|]. split; [reflexivity|].
+    unfold msg_sim. split; [reflexivity|]. split; [reflexivity|].
     split; [exact (eq_trans FL1 (eq_sym FL2))|].
     split; [unfold pmsg_of, spec_msg, SyslinesProofs.obs_sysline; cbn [Print.m_beg fst snd]; rewrite HD; reflexivity|].
     split; [unfold pmsg_of, spec_msg, SyslinesProofs.obs_sysline; cbn [Print.m_end fst snd]; rewrite HD; reflexivity|].
@@ -736,10 +747,10 @@ End Sim.
 (* the canonical decoration depends on a text message only through its lines, instant and span *)
 Lemma decorate_ext o m1 m2 : msg_sim m1 m2 -> Print.decorate o m1 = Print.decorate o m2.
 Proof.
-  intros (K1 & K2 & T & FL & B & E & _).
+  intros (K & T & FL & B & E & _).
   unfold Print.decorate, Print.decorate_plain, Print.decorate_colour, Print.prefix, Print.has_prefix,
-    Print.hl_flat, Print.date_field.
-  rewrite K1, K2, T, FL, B, E. reflexivity.
+    Print.hl_flat, Print.date_field, Print.fx_colored, Print.data_colored, Print.line_colored, Print.m_data.
+  rewrite K, T, FL, B, E. reflexivity.
 Qed.
 
 Lemma sem_sim o m1 m2 l : msg_sim m1 m2 ->
@@ -750,12 +761,12 @@ Proof.
 Qed.
 
 Lemma m_data_sim m1 m2 : msg_sim m1 m2 -> Print.m_data m1 = Print.m_data m2.
-Proof. intros (_ & _ & _ & FL & _). unfold Print.m_data. rewrite FL. reflexivity. Qed.
+Proof. intros (_ & _ & FL & _). unfold Print.m_data. rewrite FL. reflexivity. Qed.
 
 Lemma trailer_sim c e1 e2 : ev_sim e1 e2 -> Summary.trailer c e1 = Summary.trailer c e2.
 Proof.
   intros (_ & L & S). unfold Summary.trailer, Summary.supplied_nl, Summary.ends_with_newline.
-  rewrite (m_data_sim _ _ S), L. destruct S as (K1 & K2 & _). rewrite K1, K2. reflexivity.
+  rewrite (m_data_sim _ _ S), L. destruct S as (K & _). rewrite K. reflexivity.
 Qed.
 
 (* ================================================================ the print site: run = render *)
@@ -859,24 +870,35 @@ Proof.
   destruct (fold_max_spec r x) as [H1 H2]. specialize (H1 t I). specialize (M _ H2). lia.
 Qed.
 
-Lemma count_sys evs1 evs2 : Forall2 ev_sim evs1 evs2 ->
-  SummaryProofs.count_kind Print.KSys evs1 = N.of_nat (length evs2) /\
-  SummaryProofs.count_kind Print.KFixed evs1 = 0%N /\ SummaryProofs.count_kind Print.KEvtx evs1 = 0%N /\
-  SummaryProofs.count_kind Print.KJournal evs1 = 0%N /\
-  SummaryProofs.text_lines evs1 = N.of_nat (length (concat (map (fun e => Print.m_lines (Summary.e_msg e)) evs2))).
+Lemma is_kind_eqb k e : SummaryProofs.is_kind k e = kind_eqb (Print.m_kind (Summary.e_msg e)) k.
+Proof. unfold SummaryProofs.is_kind. destruct (Print.m_kind (Summary.e_msg e)), k; reflexivity. Qed.
+
+Lemma count_kind_of k evs : SummaryProofs.count_kind k evs = count_of k evs.
 Proof.
-  unfold SummaryProofs.count_kind.
-  induction 1 as [|e1 e2 r1 r2 (_ & _ & S) _ IH]; [cbn; auto|].
-  destruct IH as (I1 & I2 & I3 & I4 & I5). destruct S as (K1 & K2 & _ & FL & _).
-  assert (Q1 : SummaryProofs.is_kind Print.KSys e1 = true) by (unfold SummaryProofs.is_kind; rewrite K1; reflexivity).
-  assert (Q2 : SummaryProofs.is_kind Print.KFixed e1 = false) by (unfold SummaryProofs.is_kind; rewrite K1; reflexivity).
-  assert (Q3 : SummaryProofs.is_kind Print.KEvtx e1 = false) by (unfold SummaryProofs.is_kind; rewrite K1; reflexivity).
-  assert (Q4 : SummaryProofs.is_kind Print.KJournal e1 = false) by (unfold SummaryProofs.is_kind; rewrite K1; reflexivity).
-  cbn [filter SummaryProofs.text_lines fold_right map concat]. rewrite Q1, Q2, Q3, Q4, K1.
-  fold (SummaryProofs.text_lines r1). rewrite I5, app_length.
+  unfold SummaryProofs.count_kind, count_of.
+  assert (E : filter (SummaryProofs.is_kind k) evs = filter (fun e => kind_eqb (Print.m_kind (Summary.e_msg e)) k) evs).
+  { induction evs as [|e r IH]; [reflexivity|]. cbn [filter]. rewrite is_kind_eqb, IH. reflexivity. }
+  rewrite E. reflexivity.
+Qed.
+
+Lemma count_of_sim k evs1 evs2 : Forall2 ev_sim evs1 evs2 -> count_of k evs1 = count_of k evs2.
+Proof.
+  unfold count_of. intro S. f_equal.
+  induction S as [|e1 e2 r1 r2 (_ & _ & K & _) _ IH]; [reflexivity|].
+  cbn [filter]. rewrite K. destruct (kind_eqb _ k); cbn [length]; rewrite IH; reflexivity.
+Qed.
+
+Lemma text_lines_sim evs1 evs2 : Forall2 ev_sim evs1 evs2 ->
+  SummaryProofs.text_lines evs1 =
+  N.of_nat (length (concat (map (fun e => Print.m_lines (Summary.e_msg e))
+                                (filter (fun e => kind_eqb (Print.m_kind (Summary.e_msg e)) Print.KSys) evs2)))).
+Proof.
+  induction 1 as [|e1 e2 r1 r2 (_ & _ & S) _ IH]; [reflexivity|].
+  destruct S as (K & _ & FL & _).
   assert (LEN : length (Print.m_lines (Summary.e_msg e1)) = length (Print.m_lines (Summary.e_msg e2))).
   { unfold Print.flat_lines in FL. apply (f_equal (@length _)) in FL. rewrite !map_length in FL. exact FL. }
-  rewrite LEN. cbn [length]. repeat split; try assumption; lia.
+  cbn [SummaryProofs.text_lines fold_right filter]. fold (SummaryProofs.text_lines r1). rewrite IH, K.
+  destruct (Print.m_kind (Summary.e_msg e2)); cbn [kind_eqb map concat]; rewrite ?app_length, ?LEN; lia.
 Qed.
 
 Lemma run_no_summary c popt evs : Summary.c_summary c = false -> forall st,
@@ -895,7 +917,9 @@ Proof.
   pose proof (SummaryProofs.total_bytes_payload c srcs evs1 Hs) as B.
   pose proof (SummaryProofs.message_counters c srcs evs1 Hs) as C. cbv zeta in C.
   destruct C as (C1 & C2 & C3 & C4 & C5).
-  destruct (count_sys _ _ S) as (K1 & K2 & K3 & K4 & K5).
+  rewrite !count_kind_of in C1, C2, C3, C4. rewrite (text_lines_sim _ _ S) in C5.
+  rewrite (count_of_sim Print.KSys _ _ S) in C1. rewrite (count_of_sim Print.KFixed _ _ S) in C2.
+  rewrite (count_of_sim Print.KEvtx _ _ S) in C3. rewrite (count_of_sim Print.KJournal _ _ S) in C4.
   destruct (SummaryProofs.first_last_printed c srcs evs1 Hs) as [F L].
   apply is_min_zmin in F. apply is_max_zmax in L.
   unfold SummaryProofs.instants in F, L. change (fun e => Print.m_t (Summary.e_msg e)) with ev_t in F, L.
@@ -1053,90 +1077,305 @@ Proof.
 Qed.
 
 
-(* ######################################################################## part 7 *)
-Section Main.
-  Variable dated : list N -> option Z.
+
+(* ######################################################################## part 7: the other source kinds *)
+
+(* ---------------------------------------------------------------- newline-terminated texts *)
+Lemma nl_split_lines (t : bytes) : t = [] \/ (exists p, t = p ++ [10%N]) ->
+  forall cur, Print.nl_split cur t = match lines t with [] => [] | h :: r => (rev cur ++ h) :: r end.
+Proof.
+  induction t as [|b r IH]; intros T cur; [reflexivity|].
+  assert (TR : r = [] \/ exists p, r = p ++ [10%N]).
+  { destruct T as [T|[p T]]; [discriminate|]. destruct p as [|x p]; cbn in T; inversion T; subst; [left; reflexivity|].
+    right. exists p. reflexivity. }
+  cbn [Print.nl_split lines]. unfold NL. destruct (b =? 10)%N eqn:B.
+  - rewrite (IH TR []). cbn [rev app]. destruct (lines r); reflexivity.
+  - rewrite (IH TR (b :: cur)). cbn [rev].
+    destruct (lines r) as [|h q] eqn:LR.
+    + exfalso. apply SyslinesProofs.lines_nil in LR. subst r.
+      destruct T as [T|[p T]]; [discriminate|]. destruct p as [|x p]; cbn in T; inversion T; subst.
+      * rewrite N.eqb_refl in B. discriminate.
+      * destruct p; discriminate.
+    + rewrite <- app_assoc. reflexivity.
+Qed.
+
+
+(* decidable form of nl_terminated *)
+Definition nl_terminated_b (t : bytes) : bool :=
+  match rev t with [] => true | b :: _ => (b =? 10)%N end.
+Lemma nl_terminated_b_ok t : nl_terminated_b t = true -> nl_terminated t.
+Proof.
+  unfold nl_terminated_b, nl_terminated. intro H. destruct (rev t) as [|b r] eqn:E.
+  - left. apply (f_equal (@rev N)) in E. rewrite rev_involutive in E. exact E.
+  - right. apply N.eqb_eq in H. subst b. exists (rev r).
+    apply (f_equal (@rev N)) in E. rewrite rev_involutive in E. exact E.
+Qed.
+
+Section KindMsgs.
   Variable dtspan : list N -> nat * nat.
+  Hypothesis Hspan : span_ok dtspan.
 
-  (* one worker: the events it sends are the spec events of its file, up to line parts *)
-  Lemma worker_correct bs o i pf : (0 < bs)%N -> span_ok dtspan -> file_ok dated (pf_data pf) ->
-    Gate.gate dated bs (pf_data pf) = Gate.FileOk ->
-    exists out, worker_out dated dtspan bs o pf = (out, GOk) /\
-                Forall2 ev_sim (mk_events i out) (spec_file_events dated dtspan o i pf).
+  Lemma kmsg_flat k t ls : Print.flat_lines (kmsg dtspan k t ls) = ls.
   Proof.
-    intros H SP (CH & L2) G. unfold worker_out. rewrite G.
-    destruct (worker_stream dated bs (pf_data pf) (pf_streamed pf) (op_after o) (op_before o) H CH L2)
-      as (ms & E1 & E2 & E3).
-    rewrite E1. eexists. split; [reflexivity|].
-    unfold spec_file_events. rewrite <- E2. clear E1 E2.
-    induction ms as [|mb ms IH]; [constructor|].
-    inversion E3 as [|? ? [OK NEL] E3']; subst. cbn [map mk_events]. constructor; [|apply IH; exact E3'].
-    unfold ev_sim. cbn [Summary.e_src Summary.e_is_last Summary.e_msg fst snd].
-    split; [reflexivity|]. split; [reflexivity|]. apply pmsg_sim; assumption.
+    unfold Print.flat_lines, kmsg. cbn [Print.m_lines]. rewrite map_map.
+    rewrite <- (map_id ls) at 2. apply map_ext. intro l. cbn. apply app_nil_r.
   Qed.
 
-  Lemma workers_correct bs o files : (0 < bs)%N -> span_ok dtspan ->
-    Forall (fun pf => file_ok dated (pf_data pf)) files -> gate_passed dated bs files ->
-    forall i, exists EC, workers dated dtspan bs o i files = inl EC /\
-                         Forall2 (Forall2 ev_sim) EC (spec_sources_from dated dtspan o i files).
+  Lemma kmsg_fixed_sim t text : msg_sim (kmsg dtspan Print.KFixed t [text]) (kmsg dtspan Print.KFixed t [text]).
   Proof.
-    intros H SP. induction files as [|pf files IH]; intros F G i.
-    - exists []. split; [reflexivity|constructor].
-    - inversion F as [|? ? F1 F2]; subst. inversion G as [|? ? G1 G2]; subst.
-      destruct (worker_correct bs o i pf H SP F1 G1) as (out & W & SM).
-      destruct (IH F2 G2 (S i)) as (EC & WS & SS).
-      cbn [workers spec_sources_from]. rewrite W, WS.
-      exists (mk_events i out :: EC). split; [reflexivity|]. constructor; assumption.
+    assert (W : PrintVariants.wf_full (kmsg dtspan Print.KFixed t [text])).
+    { unfold PrintVariants.wf_full, Print.wf_msg. cbn. split; [eexists; reflexivity|exact I]. }
+    unfold msg_sim. do 5 (split; [reflexivity|]). split; [exact W|]. split; [exact W|]. apply Hspan.
   Qed.
 
-  Lemma sim_tags EC EVS : Forall2 (Forall2 ev_sim) EC EVS -> tags_of EC = tags_of EVS.
+  Lemma kmsg_lines_sim k t text : k = Print.KEvtx \/ k = Print.KJournal -> nl_terminated text ->
+    msg_sim (kmsg dtspan k t (lines text)) (kmsg dtspan k t (lines text)).
   Proof.
-    intro S. unfold tags_of. f_equal.
-    eapply Forall2_map_eq; [exact S|]. intros l1 l2 S'. apply sim_instants. exact S'.
+    intros K T.
+    assert (W : PrintVariants.wf_full (kmsg dtspan k t (lines text))).
+    { unfold PrintVariants.wf_full, Print.wf_msg.
+      assert (E : Print.nl_split [] (Print.m_data (kmsg dtspan k t (lines text))) = Print.flat_lines (kmsg dtspan k t (lines text))).
+      { unfold Print.m_data. rewrite kmsg_flat, SyslinesProofs.lines_concat.
+        rewrite (nl_split_lines text T []). cbn [rev app]. destruct (lines text); reflexivity. }
+      destruct K as [-> | ->]; cbn [kmsg Print.m_kind]; split; [exact E|exact I|exact E|exact I]. }
+    unfold msg_sim. do 5 (split; [reflexivity|]). split; [exact W|]. split; [exact W|]. apply Hspan.
+  Qed.
+End KindMsgs.
+
+Lemma Forall2_refl_map {A B} (R : B -> B -> Prop) (f : A -> B) l : Forall (fun x => R (f x) (f x)) l -> Forall2 R (map f l) (map f l).
+Proof. induction 1; constructor; auto. Qed.
+
+Lemma mk_events_sim i l : Forall (fun mb : Print.msg * bool => msg_sim (fst mb) (fst mb)) l ->
+  Forall2 ev_sim (mk_events i l) (mk_events i l).
+Proof.
+  intro H. unfold mk_events. apply Forall2_refl_map. eapply Forall_impl; [|exact H].
+  intros mb S. unfold ev_sim. cbn. auto.
+Qed.
+
+Lemma sorted_map_key {A} (R : A -> A -> Prop) (key : A -> Z) l :
+  StronglySorted R l -> (forall x y, In x l -> In y l -> R x y -> (key x <= key y)%Z) ->
+  StronglySorted Z.le (map key l).
+Proof.
+  induction 1 as [|x l S IH F]; intro K; [constructor|]. cbn [map]. constructor.
+  - apply IH. intros a b Ha Hb. apply K; right; assumption.
+  - rewrite Forall_forall in *. intros z Hz. apply in_map_iff in Hz as (y & <- & Hy).
+    apply K; [left; reflexivity|right; exact Hy|apply F; exact Hy].
+Qed.
+
+Lemma ev_t_mk_events i l : map ev_t (mk_events i l) = map (fun mb : Print.msg * bool => Print.m_t (fst mb)) l.
+Proof. unfold mk_events. rewrite map_map. reflexivity. Qed.
+
+
+(* ---------------------------------------------------------------- accounting records *)
+Lemma p_detect_is_detect hint file : p_detect hint file = FixedStructTablesOk.detect LayoutDetect.no_mem hint file.
+Proof. reflexivity. Qed.
+
+Lemma find_layout_in n L : find_layout n = Some L -> In L FixedStructTables.fixedstruct_layouts /\ Records.l_name L = n.
+Proof.
+  unfold find_layout. intro H. apply find_some in H as [H1 H2]. split; [exact H1|].
+  symmetry. apply beqb_eq. exact H2.
+Qed.
+
+Lemma assoc_in {A} k (t : list (bytes * A)) v : assoc k t = Some v -> In (k, v) t.
+Proof.
+  induction t as [|[k' v'] r IH]; [discriminate|]. cbn [assoc].
+  destruct (beqb k k') eqn:E; intro H.
+  - inversion H; subst. apply beqb_eq in E. subst. left. reflexivity.
+  - right. apply IH. exact H.
+Qed.
+
+(* the i-th entry of the file is the slice at its offset, and its decoded time value is the one the
+   ordering core works on *)
+Lemma index_recs_tv L (file : bytes) : forall fuel fo r,
+  In r (RecordsSpec.index_recs (Records.l_size L) fo
+          (map (Records.decode_tv L) (Records.chunks fuel (N.to_nat (Records.l_size L)) (skipn (N.to_nat fo) file)))) ->
+  RecordsSpec.r_tv r = Records.decode_tv L (Records.slice (RecordsSpec.r_fo r) (Records.l_size L) file).
+Proof.
+  induction fuel as [|fuel IH]; intros fo r H; [destruct H|].
+  cbn [Records.chunks] in H. destruct (skipn (N.to_nat fo) file) as [|x rest] eqn:SK; [destruct H|].
+  destruct (Nat.ltb (length (x :: rest)) (N.to_nat (Records.l_size L))); [destruct H|].
+  cbn [map RecordsSpec.index_recs] in H. destruct H as [<-|H].
+  - cbn [RecordsSpec.r_tv RecordsSpec.r_fo]. unfold Records.slice. rewrite SK. reflexivity.
+  - apply (IH (fo + Records.l_size L)%N). rewrite <- SK in H.
+    change (skipn (N.to_nat (Records.l_size L)) (skipn (N.to_nat fo) file))
+      with (skipnN (Records.l_size L) (skipnN fo file)) in H.
+    rewrite skipnN_skipnN in H. exact H.
+Qed.
+
+Lemma file_recs_tv L (file : bytes) r :
+  In r (RecordsSpec.index_recs (Records.l_size L) 0 (Records.file_tvs L file)) ->
+  RecordsSpec.r_tv r = Records.decode_tv L (Records.slice (RecordsSpec.r_fo r) (Records.l_size L) file).
+Proof. unfold Records.file_tvs. intro H. eapply (index_recs_tv L file (length file) 0%N). exact H. Qed.
+
+Lemma tv_leb_inst a b : RecordsSpec.tv_leb a b = true ->
+  (0 <= snd a < 1000000)%Z -> (0 <= snd b < 1000000)%Z -> (tv_inst a <= tv_inst b)%Z.
+Proof.
+  unfold RecordsSpec.tv_leb, RecordsSpec.cmp_leb, RecordsSpec.tv_cmp, tv_inst. intros H A B.
+  destruct (Z.compare_spec (fst a) (fst b)) as [E|LT|GT]; [|lia|discriminate].
+  destruct (Z.compare_spec (snd a) (snd b)); try discriminate; lia.
+Qed.
+
+Lemma bytes_ok_slice fo sz (file : bytes) : Forall (fun b => (b < 256)%N) file ->
+  RecordRenderProofs.bytes_ok (Records.slice fo sz file).
+Proof. intro H. unfold Records.slice, RecordRenderProofs.bytes_ok. apply RecordRenderProofs.Forall_firstn, RecordRenderProofs.Forall_skipn. exact H. Qed.
+
+Section RecordsKind.
+  Variable O : oracles.
+  Hypothesis Hspan : span_ok (o_dtspan O).
+
+  Lemma records_render_ok L n items (file : bytes) :
+    In (n, items) FixedStructTables.fixedstruct_render -> (forall b4, (length (o_f32 O b4) <= 64)%nat) ->
+    Forall (fun b => (b < 256)%N) file ->
+    forall X : list RecordsSpec.rec,
+    records_render O L items file (map RecordsSpec.r_fo X) =
+    (map (fun r => (rec_msg O L (RecordRender.render (o_f32 O) items FixedStructTables.as_bytes_tail
+                                   (Records.slice (RecordsSpec.r_fo r) (Records.l_size L) file)) file (RecordsSpec.r_fo r),
+                    rec_flag (Records.l_size L) file (RecordsSpec.r_fo r))) X, GOk).
+  Proof.
+    intros IN F32 OKB. induction X as [|r X IH]; [reflexivity|].
+    cbn [map records_render].
+    rewrite (FixedStructTablesOk.table_as_bytes_is_render (o_f32 O) n items _ IN F32 (bytes_ok_slice _ _ _ OKB)).
+    rewrite IH. reflexivity.
   Qed.
 
-  (* every spec source is chronological inside the window *)
-  Lemma spec_sources_sorted o files : Forall (fun pf => file_ok dated (pf_data pf)) files ->
-    forall i, Forall (fun l => StronglySorted Z.le l) (map (map ev_t) (spec_sources_from dated dtspan o i files)).
+  (* the records worker sends exactly the specified messages *)
+  Lemma records_worker_correct o hint lname (file : bytes) pf :
+    pf_kind pf = KRecords hint lname -> pf_data pf = file -> src_ok O o pf ->
+    records_worker O (op_after o) (op_before o) hint file = (records_spec O (op_after o) (op_before o) lname file, GOk).
   Proof.
-    induction files as [|pf files IH]; intros F i; [constructor|].
-    inversion F as [|? ? (CH & _) F2]; subst. cbn [spec_sources_from map]. constructor; [|apply IH; exact F2].
-    unfold spec_file_events, mk_events, spec_file_msgs. rewrite !map_map. unfold ev_t.
-    cbn [Summary.e_msg Print.m_t spec_msg fst snd].
-    apply (sorted_map_filter (fun gl : group * bool => fst (fst gl))).
-    change (map (fun gl : group * bool => fst (fst gl)) (mark_last (syslines dated (pf_data pf))))
-      with (map (fun gl : group * bool => @fst Z (list (list N)) (@fst group bool gl)) (mark_last (syslines dated (pf_data pf)))).
-    rewrite <- (map_map (@fst group bool) (@fst Z (list (list N)))), mark_last_fst. apply nondecreasing_sorted. exact CH.
+    intros K D S. unfold src_ok in S. rewrite K, D in S. cbv zeta in S.
+    destruct S as ((s & DET) & (L & items & FL & AS & _) & OKB & F32).
+    unfold records_worker, records_spec. rewrite DET, FL, AS.
+    destruct (find_layout_in _ _ FL) as [INL _].
+    pose proof (FixedStructTablesOk.wf_size_pos _ (FixedStructTablesOk.layouts_wf L INL)) as POS.
+    rewrite RecordsProofs.records_sent_K2_correct by exact POS.
+    apply (records_render_ok L lname items file (assoc_in _ _ _ AS) F32 OKB).
   Qed.
 
-  Theorem program_correct cap bs sched o files :
-    (0 < bs)%N -> domain dated dtspan files -> gate_passed dated bs files ->
-    complete dated dtspan cap o files sched ->
-    program_m dated dtspan cap bs sched o files = POk (program_spec dated dtspan o files).
+  Lemma records_spec_sim o hint lname pf :
+    pf_kind pf = KRecords hint lname -> src_ok O o pf ->
+    Forall (fun mb : Print.msg * bool => msg_sim (fst mb) (fst mb)) (records_spec O (op_after o) (op_before o) lname (pf_data pf)).
   Proof.
-    intros H (SP & F) G (s' & RUN & FIN).
-    destruct (workers_correct bs o files H SP F G 0%nat) as (EC & W & S).
-    fold (spec_sources dated dtspan o files) in S.
-    unfold program_m. rewrite W, (sim_tags _ _ S), RUN, FIN.
-    set (EVS := spec_sources dated dtspan o files) in *.
-    assert (R : Coord.reachable cap (tags_of EVS) s').
-    { eapply CoordProofs.reachable_run; [constructor|exact RUN]. }
-    destruct (CoordProofs.final_output_unique cap (tags_of EVS) s' R FIN) as [PR _].
-    rewrite PR, MergeProofs.merge_is_stable_sort.
-    2:{ unfold tags_of, Merge.tag_srcs. apply sorted_tags_from. apply spec_sources_sorted. exact F. }
-    rewrite <- (sim_tags _ _ S), printed_events.
-    assert (SS : Forall2 ev_sim (stable_sort_by ev_t (concat EC)) (stable_sort_by ev_t (concat EVS))).
-    { apply (stable_sort_by_F2 ev_t ev_sim).
-      - intros x y (_ & _ & M). unfold ev_t. apply M.
-      - apply Forall2_concat. exact S. }
-    unfold program_spec. fold EVS. unfold spec_events. fold EVS.
-    rewrite (run_totals_sim _ _ _ _ SS), (run_stdout_sim _ _ _ _ SS). reflexivity.
+    intros K _. unfold records_spec.
+    destruct (find_layout lname); [|constructor]. destruct (assoc lname FixedStructTables.fixedstruct_render); [|constructor].
+    apply Forall_map. apply Forall_forall. intros r _. cbn [fst]. unfold rec_msg. apply kmsg_fixed_sim. exact Hspan.
   Qed.
-End Main.
+
+  Lemma records_spec_sorted o hint lname pf i :
+    pf_kind pf = KRecords hint lname -> src_ok O o pf ->
+    StronglySorted Z.le (map ev_t (mk_events i (records_spec O (op_after o) (op_before o) lname (pf_data pf)))).
+  Proof.
+    intros K S. unfold src_ok in S. rewrite K in S. cbv zeta in S.
+    destruct S as (_ & (L & items & FL & AS & VAL) & _ & _).
+    rewrite ev_t_mk_events. unfold records_spec. rewrite FL, AS. rewrite map_map. cbn [fst].
+    set (kept := records_kept (op_after o) (op_before o) L (pf_data pf)) in *.
+    apply (sorted_map_key (fun a b => RecordsSpec.rec_tle a b = true)).
+    - apply (StableSort.stable_sort_sorted RecordsSpec.rec RecordsSpec.rec_tle RecordsProofs.rec_tle_total RecordsProofs.rec_tle_trans).
+    - intros x y Hx Hy LE.
+      apply (proj1 (StableSort.stable_sort_in RecordsSpec.rec RecordsSpec.rec_tle _ _)) in Hx.
+      apply (proj1 (StableSort.stable_sort_in RecordsSpec.rec RecordsSpec.rec_tle _ _)) in Hy.
+      rewrite Forall_forall in VAL. pose proof (VAL x Hx) as Vx. pose proof (VAL y Hy) as Vy.
+      assert (TX : forall z, In z kept -> RecordsSpec.r_tv z = Records.decode_tv L (Records.slice (RecordsSpec.r_fo z) (Records.l_size L) (pf_data pf))).
+      { intros z Hz. apply file_recs_tv. unfold kept, records_kept in Hz. apply filter_In in Hz as [Hz _]. apply filter_In in Hz as [Hz _]. exact Hz. }
+      unfold rec_msg, kmsg. cbn [Print.m_t]. rewrite <- (TX x Hx), <- (TX y Hy).
+      apply tv_leb_inst; assumption.
+  Qed.
+End RecordsKind.
+
+(* ---------------------------------------------------------------- event logs *)
+Lemma index_evs_nth (rs : list (option Z)) : forall i e, In e (RecordsSpec.index_evs i rs) ->
+  (i <= RecordsSpec.e_idx e)%N /\ nth (N.to_nat (RecordsSpec.e_idx e - i)) rs None = Some (RecordsSpec.e_ts e).
+Proof.
+  induction rs as [|[t|] r IH]; intros i e H; [destruct H| |].
+  - cbn [RecordsSpec.index_evs] in H. destruct H as [<-|H].
+    + cbn. split; [lia|]. replace (i - i)%N with 0%N by lia. reflexivity.
+    + destruct (IH _ _ H) as [L E]. split; [lia|].
+      replace (N.to_nat (RecordsSpec.e_idx e - i)) with (S (N.to_nat (RecordsSpec.e_idx e - (i + 1)))) by lia. exact E.
+  - cbn [RecordsSpec.index_evs] in H. destruct (IH _ _ H) as [L E]. split; [lia|].
+    replace (N.to_nat (RecordsSpec.e_idx e - i)) with (S (N.to_nat (RecordsSpec.e_idx e - (i + 1)))) by lia. exact E.
+Qed.
+
+Section EvtxKind.
+  Variable O : oracles.
+  Hypothesis Hspan : span_ok (o_dtspan O).
+
+  Lemma evtx_worker_correct a b recs : evtx_worker O a b recs = (evtx_spec O a b recs, GOk).
+  Proof. unfold evtx_worker, evtx_spec. rewrite EvtxProofs.evtx_out_correct, map_map. reflexivity. Qed.
+
+  Lemma evtx_lookup recs e : In e (RecordsSpec.index_evs 0 (evtx_times recs)) ->
+    exists text, nth (N.to_nat (RecordsSpec.e_idx e)) recs None = Some (RecordsSpec.e_ts e, text).
+  Proof.
+    intro H. destruct (index_evs_nth _ _ _ H) as [_ E]. rewrite N.sub_0_r in E.
+    unfold evtx_times in E.
+    assert (G : nth (N.to_nat (RecordsSpec.e_idx e)) (map (option_map fst) recs) None
+                = option_map fst (nth (N.to_nat (RecordsSpec.e_idx e)) recs None)) by (apply (map_nth (option_map fst) recs None)).
+    rewrite G in E. destruct (nth (N.to_nat (RecordsSpec.e_idx e)) recs None) as [[t text]|]; [|discriminate].
+    cbn in E. inversion E; subst. exists text. reflexivity.
+  Qed.
+
+  Lemma spec_events_in a b evs e : In e (RecordsSpec.spec_events a b evs) -> In e evs.
+  Proof.
+    unfold RecordsSpec.spec_events. intro H.
+    apply (proj1 (StableSort.stable_sort_in RecordsSpec.ev RecordsSpec.ev_tle _ _)) in H. apply filter_In in H. tauto.
+  Qed.
+
+  Lemma evtx_spec_sim a b recs :
+    Forall (fun r : option (Z * bytes) => match r with Some (_, t) => nl_terminated t | None => True end) recs ->
+    Forall (fun mb : Print.msg * bool => msg_sim (fst mb) (fst mb)) (evtx_spec O a b recs).
+  Proof.
+    intro T. unfold evtx_spec. apply Forall_map. apply Forall_forall. intros e He.
+    apply spec_events_in in He. destruct (evtx_lookup recs e He) as [text E].
+    unfold evtx_msg. rewrite E. cbn [fst]. apply kmsg_lines_sim; [exact Hspan|left; reflexivity|].
+    rewrite Forall_forall in T. assert (IN : In (Some (RecordsSpec.e_ts e, text)) recs).
+    { rewrite <- E. apply nth_In. destruct (Nat.lt_ge_cases (N.to_nat (RecordsSpec.e_idx e)) (length recs)) as [L|G]; [exact L|].
+      rewrite nth_overflow in E by exact G. discriminate. }
+    exact (T _ IN).
+  Qed.
+
+  Lemma evtx_spec_sorted a b recs i : StronglySorted Z.le (map ev_t (mk_events i (evtx_spec O a b recs))).
+  Proof.
+    rewrite ev_t_mk_events. unfold evtx_spec. rewrite map_map.
+    apply (sorted_map_key (fun x y => (RecordsSpec.e_ts x <= RecordsSpec.e_ts y)%Z)).
+    - apply EvtxProofs.spec_events_sorted.
+    - intros x y Hx Hy LE. apply spec_events_in in Hx, Hy.
+      destruct (evtx_lookup recs x Hx) as [tx Ex]. destruct (evtx_lookup recs y Hy) as [ty Ey].
+      unfold evtx_msg. rewrite Ex, Ey. cbn. exact LE.
+  Qed.
+End EvtxKind.
+
+(* ---------------------------------------------------------------- journals *)
+Section JournalKind.
+  Variable O : oracles.
+  Hypothesis Hspan : span_ok (o_dtspan O).
+
+  Lemma journal_worker_correct o j pf : pf_kind pf = KJournalFile j -> src_ok O o pf ->
+    journal_worker O (op_after o) (op_before o) j = (journal_spec O (op_after o) (op_before o) j, GOk).
+  Proof.
+    intros K S. unfold src_ok in S. rewrite K in S. destruct S as (J1 & ND & VR & BA & BB & _).
+    unfold journal_worker, journal_spec.
+    rewrite (JournalWindow.journal_out_correct_l _ _ J1 j _ _ ND VR BA BB). reflexivity.
+  Qed.
+
+  Lemma journal_spec_sim o j pf : pf_kind pf = KJournalFile j -> src_ok O o pf ->
+    Forall (fun mb : Print.msg * bool => msg_sim (fst mb) (fst mb)) (journal_spec O (op_after o) (op_before o) j).
+  Proof.
+    intros K S. unfold src_ok in S. rewrite K in S. destruct S as (_ & _ & _ & _ & _ & T & _).
+    unfold journal_spec. apply Forall_map. apply Forall_forall. intros e He.
+    unfold JournalSpec.window in He. apply filter_In in He as [He _].
+    unfold journal_msg. cbn [fst]. apply kmsg_lines_sim; [exact Hspan|right; reflexivity|].
+    rewrite Forall_forall in T. exact (T e He).
+  Qed.
+
+  Lemma journal_spec_sorted o j pf i : pf_kind pf = KJournalFile j -> src_ok O o pf ->
+    StronglySorted Z.le (map ev_t (mk_events i (journal_spec O (op_after o) (op_before o) j))).
+  Proof.
+    intros K S. unfold src_ok in S. rewrite K in S. destruct S as (_ & _ & _ & _ & _ & _ & SO).
+    rewrite ev_t_mk_events. unfold journal_spec. rewrite map_map. exact SO.
+  Qed.
+End JournalKind.
 
 
-(* ######################################################################## part 8 *)
-(* ================================================================ the spec events are printable *)
+(* ######################################################################## part 8: text kinds, dispatch, the theorem *)
 
 Lemma groups_in dated ls :
   (forall l, In l (fst (groups dated ls)) -> In l ls) /\
@@ -1159,6 +1398,164 @@ Proof.
   intro E. subst l. cbn in P. lia.
 Qed.
 
+Lemma mark_last_in {A} (l : list A) x b : In (x, b) (mark_last l) -> In x l.
+Proof. intro H. rewrite <- (mark_last_fst l). apply (in_map fst) in H. exact H. Qed.
+
+Section TextKind.
+  Variable dated : list N -> option Z.
+  Variable dtspan : list N -> nat * nat.
+  Hypothesis Hspan : span_ok dtspan.
+
+  (* one text worker: the messages it sends are the spec messages of its file, up to line parts *)
+  Lemma text_worker_correct bs a b streamed (f : file) i : (0 < bs)%N -> file_ok dated f ->
+    Gate.gate dated bs f = Gate.FileOk ->
+    exists out, text_worker dated dtspan bs a b streamed f = (out, GOk) /\
+                Forall2 ev_sim (mk_events i out) (mk_events i (text_spec dated dtspan a b f)).
+  Proof.
+    intros H (CH & L2) G. unfold text_worker. rewrite G.
+    destruct (worker_stream dated bs f streamed a b H CH L2) as (ms & E1 & E2 & E3).
+    rewrite E1. eexists. split; [reflexivity|].
+    unfold text_spec. rewrite <- E2. clear E1 E2.
+    induction ms as [|mb ms IH]; [constructor|].
+    inversion E3 as [|? ? [OK NEL] E3']; subst. cbn [map mk_events]. constructor; [|apply IH; exact E3'].
+    unfold ev_sim. cbn [Summary.e_src Summary.e_is_last Summary.e_msg fst snd].
+    split; [reflexivity|]. split; [reflexivity|]. apply pmsg_sim; assumption.
+  Qed.
+
+  Lemma text_spec_sorted a b (f : file) i : file_ok dated f ->
+    StronglySorted Z.le (map ev_t (mk_events i (text_spec dated dtspan a b f))).
+  Proof.
+    intros (CH & _). rewrite ev_t_mk_events. unfold text_spec, spec_file_msgs. rewrite map_map.
+    cbn [fst Print.m_t spec_msg].
+    apply (sorted_map_filter (fun gl : group * bool => fst (fst gl))).
+    change (map (fun gl : group * bool => fst (fst gl)) (mark_last (syslines dated f)))
+      with (map (fun gl : group * bool => @fst Z (list (list N)) (@fst group bool gl)) (mark_last (syslines dated f))).
+    rewrite <- (map_map (@fst group bool) (@fst Z (list (list N)))), mark_last_fst. apply nondecreasing_sorted. exact CH.
+  Qed.
+
+  Lemma spec_msg_sim (f : file) g : In g (syslines dated f) -> msg_sim (spec_msg dtspan g) (spec_msg dtspan g).
+  Proof.
+    intro Hg.
+    assert (W : PrintVariants.wf_full (spec_msg dtspan g)).
+    { unfold PrintVariants.wf_full, Print.wf_msg, PrintVariants.wf_sys, spec_msg. cbn [Print.m_kind Print.m_lines Print.m_beg Print.m_end].
+      split; [exact I|]. split; [|apply Hspan]. apply Forall_map.
+      apply Forall_forall. intros l Hl. unfold PrintVariants.wf_line. constructor; [|constructor].
+      eapply group_lines_nonempty; eauto. }
+    unfold msg_sim. do 5 (split; [reflexivity|]). split; [exact W|]. split; [exact W|]. apply Hspan.
+  Qed.
+
+  Lemma text_spec_sim a b (f : file) :
+    Forall (fun mb : Print.msg * bool => msg_sim (fst mb) (fst mb)) (text_spec dated dtspan a b f).
+  Proof.
+    unfold text_spec, spec_file_msgs. apply Forall_map. apply Forall_forall. intros [g fl] Hg.
+    apply filter_In in Hg as [Hg _]. apply mark_last_in in Hg. cbn [fst]. eapply spec_msg_sim. exact Hg.
+  Qed.
+End TextKind.
+
+Section Main.
+  Variable O : oracles.
+
+  (* ---- one worker of any kind *)
+  Lemma worker_correct bs o i pf : (0 < bs)%N -> span_ok (o_dtspan O) -> src_ok O o pf ->
+    gate_passed O bs [pf] ->
+    exists out, worker_out O bs o pf = (out, GOk) /\
+                Forall2 ev_sim (mk_events i out) (spec_file_events O o i pf).
+  Proof.
+    intros H SP S G. inversion G as [|? ? G1 _]; subst. clear G.
+    unfold worker_out, spec_file_events, spec_out. unfold src_ok in S. cbv zeta.
+    destruct (pf_kind pf) as [|off mt|hint lname|recs|j] eqn:K.
+    - apply text_worker_correct; assumption.
+    - destruct S as (tab & TB & OK). rewrite TB. apply text_worker_correct; [exact SP|exact H|exact OK|]. apply G1. exact TB.
+    - assert (S' : src_ok O o pf) by (unfold src_ok; rewrite K; exact S).
+      rewrite (records_worker_correct O o hint lname (pf_data pf) pf K eq_refl S').
+      eexists. split; [reflexivity|]. apply mk_events_sim. eapply records_spec_sim; eassumption.
+    - rewrite evtx_worker_correct. eexists. split; [reflexivity|]. apply mk_events_sim. apply evtx_spec_sim; assumption.
+    - assert (S' : src_ok O o pf) by (unfold src_ok; rewrite K; exact S).
+      rewrite (journal_worker_correct O o j pf K S').
+      eexists. split; [reflexivity|]. apply mk_events_sim. eapply journal_spec_sim; eassumption.
+  Qed.
+
+  Lemma spec_source_sorted o i pf : src_ok O o pf ->
+    StronglySorted Z.le (map ev_t (spec_file_events O o i pf)).
+  Proof.
+    intro S. unfold spec_file_events, spec_out. cbv zeta.
+    destruct (pf_kind pf) as [|off mt|hint lname|recs|j] eqn:K.
+    - unfold src_ok in S. rewrite K in S. apply text_spec_sorted. exact S.
+    - unfold src_ok in S. rewrite K in S. destruct S as (tab & TB & OK). rewrite TB. apply text_spec_sorted. exact OK.
+    - eapply records_spec_sorted; eassumption.
+    - apply evtx_spec_sorted.
+    - eapply journal_spec_sorted; eassumption.
+  Qed.
+
+  Lemma spec_source_sim o pf : span_ok (o_dtspan O) -> src_ok O o pf ->
+    Forall (fun mb : Print.msg * bool => msg_sim (fst mb) (fst mb)) (spec_out O o pf).
+  Proof.
+    intros SP S. unfold spec_out. cbv zeta.
+    destruct (pf_kind pf) as [|off mt|hint lname|recs|j] eqn:K.
+    - apply text_spec_sim. exact SP.
+    - destruct (yl_table O off mt (pf_data pf)); [apply text_spec_sim; exact SP|constructor].
+    - eapply records_spec_sim; eassumption.
+    - unfold src_ok in S. rewrite K in S. apply evtx_spec_sim; assumption.
+    - eapply journal_spec_sim; eassumption.
+  Qed.
+
+  Lemma workers_correct bs o files : (0 < bs)%N -> span_ok (o_dtspan O) ->
+    Forall (src_ok O o) files -> gate_passed O bs files ->
+    forall i, exists EC, workers O bs o i files = inl EC /\
+                         Forall2 (Forall2 ev_sim) EC (spec_sources_from O o i files).
+  Proof.
+    intros H SP. induction files as [|pf files IH]; intros F G i.
+    - exists []. split; [reflexivity|constructor].
+    - inversion F as [|? ? F1 F2]; subst. inversion G as [|? ? G1 G2]; subst.
+      destruct (worker_correct bs o i pf H SP F1 (Forall_cons _ G1 (Forall_nil _))) as (out & W & SM).
+      destruct (IH F2 G2 (S i)) as (EC & WS & SS).
+      cbn [workers spec_sources_from]. rewrite W, WS.
+      exists (mk_events i out :: EC). split; [reflexivity|]. constructor; assumption.
+  Qed.
+
+  Lemma sim_tags EC EVS : Forall2 (Forall2 ev_sim) EC EVS -> tags_of EC = tags_of EVS.
+  Proof.
+    intro S. unfold tags_of. f_equal.
+    eapply Forall2_map_eq; [exact S|]. intros l1 l2 S'. apply sim_instants. exact S'.
+  Qed.
+
+  (* every spec source is chronological inside the window *)
+  Lemma spec_sources_sorted o files : Forall (src_ok O o) files ->
+    forall i, Forall (fun l => StronglySorted Z.le l) (map (map ev_t) (spec_sources_from O o i files)).
+  Proof.
+    induction files as [|pf files IH]; intros F i; [constructor|].
+    inversion F as [|? ? F1 F2]; subst. cbn [spec_sources_from map]. constructor; [|apply IH; exact F2].
+    apply spec_source_sorted. exact F1.
+  Qed.
+
+  Theorem program_correct cap bs sched o files :
+    (0 < bs)%N -> domain O o files -> gate_passed O bs files ->
+    complete O cap o files sched ->
+    program_m O cap bs sched o files = POk (program_spec O o files).
+  Proof.
+    intros H (SP & F) G (s' & RUN & FIN).
+    destruct (workers_correct bs o files H SP F G 0%nat) as (EC & W & S).
+    fold (spec_sources O o files) in S.
+    unfold program_m. rewrite W, (sim_tags _ _ S), RUN, FIN.
+    set (EVS := spec_sources O o files) in *.
+    assert (R : Coord.reachable cap (tags_of EVS) s').
+    { eapply CoordProofs.reachable_run; [constructor|exact RUN]. }
+    destruct (CoordProofs.final_output_unique cap (tags_of EVS) s' R FIN) as [PR _].
+    rewrite PR, MergeProofs.merge_is_stable_sort.
+    2:{ unfold tags_of, Merge.tag_srcs. apply sorted_tags_from. apply spec_sources_sorted. exact F. }
+    rewrite <- (sim_tags _ _ S), printed_events.
+    assert (SS : Forall2 ev_sim (stable_sort_by ev_t (concat EC)) (stable_sort_by ev_t (concat EVS))).
+    { apply (stable_sort_by_F2 ev_t ev_sim).
+      - intros x y (_ & _ & M). unfold ev_t. apply M.
+      - apply Forall2_concat. exact S. }
+    unfold program_spec. fold EVS. unfold spec_events. fold EVS.
+    rewrite (run_totals_sim _ _ _ _ SS), (run_stdout_sim _ _ _ _ SS). reflexivity.
+  Qed.
+End Main.
+
+
+(* ######################################################################## part 9: the spec is printable; corollaries *)
+
 Lemma Forall_insert_by {A} (key : A -> Z) (P : A -> Prop) x l : P x -> Forall P l -> Forall P (insert_by key x l).
 Proof.
   intros Hx. induction 1 as [|y l Hy Hl IH]; [repeat constructor; exact Hx|].
@@ -1171,90 +1568,78 @@ Proof. induction 1; [constructor|]. cbn [stable_sort_by fold_right]. apply Foral
 Lemma Forall_diag {A} (R : A -> A -> Prop) l : Forall (fun x => R x x) l -> Forall2 R l l.
 Proof. induction 1; constructor; auto. Qed.
 
-Lemma mark_last_in {A} (l : list A) x b : In (x, b) (mark_last l) -> In x l.
-Proof. intro H. rewrite <- (mark_last_fst l). apply (in_map fst) in H. exact H. Qed.
-
 Section Spec.
-  Variable dated : list N -> option Z.
-  Variable dtspan : list N -> nat * nat.
-  Hypothesis Hspan : span_ok dtspan.
+  Variable O : oracles.
 
-  Lemma spec_msg_sim (f : file) g : In g (syslines dated f) -> msg_sim (spec_msg dtspan g) (spec_msg dtspan g).
+  Lemma spec_sources_sim o files : span_ok (o_dtspan O) -> Forall (src_ok O o) files -> forall i,
+    Forall (fun e => ev_sim e e) (concat (spec_sources_from O o i files)).
   Proof.
-    intro Hg. unfold msg_sim. repeat split; try reflexivity; try apply Hspan.
-    - unfold PrintVariants.wf_sys, spec_msg. cbn [Print.m_lines]. apply Forall_map.
-      apply Forall_forall. intros l Hl. unfold PrintVariants.wf_line. constructor; [|constructor].
-      eapply group_lines_nonempty; eauto.
-    - unfold PrintVariants.wf_sys, spec_msg. cbn [Print.m_lines]. apply Forall_map.
-      apply Forall_forall. intros l Hl. unfold PrintVariants.wf_line. constructor; [|constructor].
-      eapply group_lines_nonempty; eauto.
-  Qed.
-
-  Lemma spec_sources_sim o files : forall i,
-    Forall (fun e => ev_sim e e) (concat (spec_sources_from dated dtspan o i files)).
-  Proof.
-    induction files as [|pf files IH]; intro i; [constructor|].
+    intros SP. induction 1 as [|pf files S _ IH]; intro i; [constructor|].
     cbn [spec_sources_from concat]. apply Forall_app. split; [|apply IH].
-    unfold spec_file_events, mk_events, spec_file_msgs. rewrite map_map. apply Forall_map.
-    apply Forall_forall. intros [g b] Hg. apply filter_In in Hg as [Hg _]. apply mark_last_in in Hg.
-    unfold ev_sim. cbn [Summary.e_src Summary.e_is_last Summary.e_msg fst snd].
-    split; [reflexivity|]. split; [reflexivity|]. eapply spec_msg_sim. exact Hg.
+    unfold spec_file_events, mk_events. apply Forall_map.
+    eapply Forall_impl; [|exact (spec_source_sim O o pf SP S)].
+    intros mb M. unfold ev_sim. cbn. auto.
   Qed.
 
-  Lemma spec_events_sim o files :
-    Forall2 ev_sim (spec_events dated dtspan o files) (spec_events dated dtspan o files).
-  Proof. apply Forall_diag. unfold spec_events. apply Forall_stable_sort_by. apply spec_sources_sim. Qed.
+  Lemma spec_events_sim o files : domain O o files ->
+    Forall2 ev_sim (spec_events O o files) (spec_events O o files).
+  Proof. intros (SP & F). apply Forall_diag. unfold spec_events. apply Forall_stable_sort_by. apply spec_sources_sim; assumption. Qed.
 
   (* the specification IS the print-site model (Model/Summary.v) run on the spec events: every
      theorem of C13 and C19 about Summary.run applies to program_spec *)
-  Theorem spec_is_run o files :
-    let R := Summary.run (op_cli o) (sources_of files) (spec_events dated dtspan o files) in
-    program_spec dated dtspan o files = (Summary.k_stdout R, Summary.k_total R).
+  Theorem spec_is_run o files : domain O o files ->
+    let R := Summary.run (op_cli o) (sources_of files) (spec_events O o files) in
+    program_spec O o files = (Summary.k_stdout R, Summary.k_total R).
   Proof.
-    cbv zeta. unfold program_spec.
-    pose proof (spec_events_sim o files) as S.
+    intro D. cbv zeta. unfold program_spec.
+    pose proof (spec_events_sim o files D) as S.
     rewrite (run_totals_sim _ _ _ _ S), (run_stdout_sim _ _ _ _ S). reflexivity.
   Qed.
 
   (* ---------------------------------------------------------------- C19 at program level *)
-  Theorem program_total_bytes o files : Summary.c_summary (op_cli o) = true ->
-    let r := program_spec dated dtspan o files in
+  Theorem program_total_bytes o files : domain O o files -> Summary.c_summary (op_cli o) = true ->
+    let r := program_spec O o files in
     Summary.u_bytes (snd r) = Print.blen (Print.payload (fst r)) /\
     (Summary.c_colour (op_cli o) = false -> forall g, Summary.u_bytes (snd r) = Print.blen (Print.concr g (fst r))).
   Proof.
-    intro Hs. cbv zeta. rewrite spec_is_run. cbn [fst snd]. split.
+    intros D Hs. cbv zeta. rewrite spec_is_run by exact D. cbn [fst snd]. split.
     - apply SummaryProofs.total_bytes_payload. exact Hs.
     - intros Hc g. apply SummaryProofs.total_bytes_stdout_nocolour; assumption.
   Qed.
 
+  (* per-kind message counters; `lines` counts the lines of TEXT messages only *)
   Theorem program_counters o files : Summary.c_summary (op_cli o) = true ->
-    let evs := spec_events dated dtspan o files in
-    let t := snd (program_spec dated dtspan o files) in
-    Summary.u_sys t = N.of_nat (length evs) /\
-    Summary.u_lines t = N.of_nat (length (concat (map (fun e => Print.m_lines (Summary.e_msg e)) evs))) /\
-    Summary.u_fixed t = 0%N /\ Summary.u_evtx t = 0%N /\ Summary.u_journal t = 0%N /\
+    let evs := spec_events O o files in
+    let t := snd (program_spec O o files) in
+    Summary.u_sys t = count_of Print.KSys evs /\ Summary.u_fixed t = count_of Print.KFixed evs /\
+    Summary.u_evtx t = count_of Print.KEvtx evs /\ Summary.u_journal t = count_of Print.KJournal evs /\
+    Summary.u_lines t = N.of_nat (length (concat (map (fun e => Print.m_lines (Summary.e_msg e))
+                                   (filter (fun e => kind_eqb (Print.m_kind (Summary.e_msg e)) Print.KSys) evs)))) /\
     SummaryProofs.is_min (Summary.u_first t) (map ev_t evs) /\
     SummaryProofs.is_max (Summary.u_last t) (map ev_t evs).
   Proof.
     intro Hs. cbv zeta. unfold program_spec, spec_totals. cbn [snd]. rewrite Hs.
     cbn [Summary.u_sys Summary.u_lines Summary.u_fixed Summary.u_evtx Summary.u_journal Summary.u_first Summary.u_last].
-    repeat split; try reflexivity.
-    - destruct (SummaryProofs.first_last_printed (op_cli o) (sources_of files) (spec_events dated dtspan o files) Hs) as [F _].
+    do 5 (split; [reflexivity|]). split.
+    - destruct (SummaryProofs.first_last_printed (op_cli o) (sources_of files) (spec_events O o files) Hs) as [F _].
       pose proof (is_min_zmin _ _ F) as E. unfold SummaryProofs.instants in *.
       change (fun e => Print.m_t (Summary.e_msg e)) with ev_t in *. rewrite <- E. exact F.
-    - destruct (SummaryProofs.first_last_printed (op_cli o) (sources_of files) (spec_events dated dtspan o files) Hs) as [_ L].
+    - destruct (SummaryProofs.first_last_printed (op_cli o) (sources_of files) (spec_events O o files) Hs) as [_ L].
       pose proof (is_max_zmax _ _ L) as E. unfold SummaryProofs.instants in *.
       change (fun e => Print.m_t (Summary.e_msg e)) with ev_t in *. rewrite <- E. exact L.
   Qed.
 
-  (* the spec events depend on the options only through the window *)
+  (* the spec events and the domain depend on the options only through the window *)
   Lemma spec_events_window o1 o2 files : op_after o1 = op_after o2 -> op_before o1 = op_before o2 ->
-    spec_events dated dtspan o1 files = spec_events dated dtspan o2 files.
+    spec_events O o1 files = spec_events O o2 files.
   Proof.
     intros A B. unfold spec_events, spec_sources. f_equal. f_equal. generalize 0%nat.
     induction files as [|pf files IH]; intro i; [reflexivity|].
-    cbn [spec_sources_from]. rewrite IH. unfold spec_file_events. rewrite A, B. reflexivity.
+    cbn [spec_sources_from]. rewrite IH. unfold spec_file_events, spec_out. rewrite A, B. reflexivity.
   Qed.
+
+  Lemma domain_undecorated o files : domain O o files -> domain O (undecorated_opts o) files.
+  Proof. intro D. exact D. Qed.
 
   (* ---------------------------------------------------------------- C13 at program level *)
   Lemma undecorated_payload c srcs evs : Forall SummaryProofs.ev_ok evs ->
@@ -1268,16 +1653,16 @@ Section Spec.
     unfold Print.plain, Print.m_data. rewrite map_id. reflexivity.
   Qed.
 
-  Theorem program_strip o files :
+  Theorem program_strip o files : domain O o files ->
     let c := op_cli o in
-    let evs := spec_events dated dtspan o files in
+    let evs := spec_events O o files in
     Print.strip_msgs (Summary.shape_of c (Summary.popt_of c (sources_of files) evs) evs)
-                     (Print.payload (fst (program_spec dated dtspan o files)))
-    = Some (Print.payload (fst (program_spec dated dtspan (undecorated_opts o) files))).
+                     (Print.payload (fst (program_spec O o files)))
+    = Some (Print.payload (fst (program_spec O (undecorated_opts o) files))).
   Proof.
-    cbv zeta. rewrite !spec_is_run. cbn [fst].
-    assert (OK : Forall SummaryProofs.ev_ok (spec_events dated dtspan o files)).
-    { eapply sim_ev_ok. apply spec_events_sim. }
+    intro D. cbv zeta. rewrite (spec_is_run o files D), (spec_is_run _ files (domain_undecorated o files D)). cbn [fst].
+    assert (OK : Forall SummaryProofs.ev_ok (spec_events O o files)).
+    { eapply sim_ev_ok. apply spec_events_sim. exact D. }
     rewrite (spec_events_window (undecorated_opts o) o files eq_refl eq_refl).
     change (op_cli (undecorated_opts o)) with (undecorated (op_cli o)).
     rewrite undecorated_payload by exact OK.
@@ -1286,46 +1671,46 @@ Section Spec.
 
   (* with colour on, deleting the SGR sequences first leaves that payload *)
   Theorem program_strip_sgr o files g : PrintStrip.sgr_ok g ->
-    PrintStrip.no_esc (Print.payload (fst (program_spec dated dtspan o files))) ->
-    Print.strip_sgr (Print.concr g (fst (program_spec dated dtspan o files))) =
-    Print.payload (fst (program_spec dated dtspan o files)).
+    PrintStrip.no_esc (Print.payload (fst (program_spec O o files))) ->
+    Print.strip_sgr (Print.concr g (fst (program_spec O o files))) =
+    Print.payload (fst (program_spec O o files)).
   Proof. intros G NE. apply PrintStrip.strip_sgr_concr; assumption. Qed.
 End Spec.
 
 (* ================================================================ corollaries of program_correct *)
 Section Corollaries.
-  Variable dated : list N -> option Z.
-  Variable dtspan : list N -> nat * nat.
+  Variable O : oracles.
 
   (* C12 at program level: the WHOLE output (stdout and totals) is the same at every block size
-     at which stage 1 accepts the files *)
+     at which stage 1 accepts the text files (record files, event logs and journals are not read
+     through the block reader's line model: no block size applies to them here) *)
   Theorem program_bs_independent cap bs1 bs2 sched o files :
-    (0 < bs1)%N -> (0 < bs2)%N -> domain dated dtspan files ->
-    gate_passed dated bs1 files -> gate_passed dated bs2 files ->
-    complete dated dtspan cap o files sched ->
-    program_m dated dtspan cap bs1 sched o files = program_m dated dtspan cap bs2 sched o files.
+    (0 < bs1)%N -> (0 < bs2)%N -> domain O o files ->
+    gate_passed O bs1 files -> gate_passed O bs2 files ->
+    complete O cap o files sched ->
+    program_m O cap bs1 sched o files = program_m O cap bs2 sched o files.
   Proof. intros. rewrite !program_correct by assumption. reflexivity. Qed.
 
   (* C06 at program level: every complete schedule gives the same stdout and totals *)
   Theorem program_schedule_independent cap bs sched1 sched2 o files :
-    (0 < bs)%N -> domain dated dtspan files -> gate_passed dated bs files ->
-    complete dated dtspan cap o files sched1 -> complete dated dtspan cap o files sched2 ->
-    program_m dated dtspan cap bs sched1 o files = program_m dated dtspan cap bs sched2 o files.
+    (0 < bs)%N -> domain O o files -> gate_passed O bs files ->
+    complete O cap o files sched1 -> complete O cap o files sched2 ->
+    program_m O cap bs sched1 o files = program_m O cap bs sched2 o files.
   Proof. intros. rewrite !program_correct by assumption. reflexivity. Qed.
 
   (* complete schedules exist for every input, and every maximal execution is one *)
   Theorem complete_schedule_exists cap o files : (1 <= cap)%nat ->
-    exists sched, complete dated dtspan cap o files sched.
+    exists sched, complete O cap o files sched.
   Proof.
-    intro H. destruct (CoordProofs.complete_run_exists cap (tags_of (spec_sources dated dtspan o files)) H)
+    intro H. destruct (CoordProofs.complete_run_exists cap (tags_of (spec_sources O o files)) H)
       as (es & s' & R & F & _).
     exists es, s'. auto.
   Qed.
 
   Theorem maximal_schedule_complete cap o files sched s' : (1 <= cap)%nat ->
-    Coord.run cap (Coord.init (tags_of (spec_sources dated dtspan o files))) sched = Some s' ->
+    Coord.run cap (Coord.init (tags_of (spec_sources O o files))) sched = Some s' ->
     (forall e, Coord.step cap s' e = None) ->
-    complete dated dtspan cap o files sched.
+    complete O cap o files sched.
   Proof.
     intros H R M. destruct (CoordProofs.schedule_independence cap _ sched s' H R M) as (F & _).
     exists s'. auto.
@@ -1335,10 +1720,10 @@ Section Corollaries.
      sends and the coordinator's receives and prints, no fairness assumption) the whole program
      prints the specification *)
   Theorem program_correct_maximal cap bs sched s' o files :
-    (1 <= cap)%nat -> (0 < bs)%N -> domain dated dtspan files -> gate_passed dated bs files ->
-    Coord.run cap (Coord.init (tags_of (spec_sources dated dtspan o files))) sched = Some s' ->
+    (1 <= cap)%nat -> (0 < bs)%N -> domain O o files -> gate_passed O bs files ->
+    Coord.run cap (Coord.init (tags_of (spec_sources O o files))) sched = Some s' ->
     (forall e, Coord.step cap s' e = None) ->
-    program_m dated dtspan cap bs sched o files = POk (program_spec dated dtspan o files).
+    program_m O cap bs sched o files = POk (program_spec O o files).
   Proof.
     intros Hc H D G R M. apply program_correct; try assumption.
     eapply maximal_schedule_complete; eassumption.
@@ -1347,43 +1732,43 @@ Section Corollaries.
   (* the code-level output under ANY block size and ANY complete schedule satisfies the C19 and
      C13 identities *)
   Theorem program_m_totals cap bs sched o files out tot :
-    (0 < bs)%N -> domain dated dtspan files -> gate_passed dated bs files ->
-    complete dated dtspan cap o files sched ->
-    program_m dated dtspan cap bs sched o files = POk (out, tot) ->
+    (0 < bs)%N -> domain O o files -> gate_passed O bs files ->
+    complete O cap o files sched ->
+    program_m O cap bs sched o files = POk (out, tot) ->
     Summary.c_summary (op_cli o) = true ->
+    let evs := spec_events O o files in
     Summary.u_bytes tot = Print.blen (Print.payload out) /\
     (Summary.c_colour (op_cli o) = false -> forall g, Summary.u_bytes tot = Print.blen (Print.concr g out)) /\
-    Summary.u_sys tot = N.of_nat (length (spec_events dated dtspan o files)).
+    Summary.u_sys tot = count_of Print.KSys evs /\ Summary.u_fixed tot = count_of Print.KFixed evs /\
+    Summary.u_evtx tot = count_of Print.KEvtx evs /\ Summary.u_journal tot = count_of Print.KJournal evs.
   Proof.
     intros H D G C E Hs. rewrite program_correct in E by assumption.
-    assert (E' : program_spec dated dtspan o files = (out, tot)) by congruence. clear E.
-    destruct D as [SP _].
-    destruct (program_total_bytes dated dtspan SP o files Hs) as [B1 B2]. rewrite E' in B1, B2. cbn [fst snd] in B1, B2.
-    destruct (program_counters dated dtspan o files Hs) as (C1 & _). rewrite E' in C1. cbn [snd] in C1.
-    auto.
+    assert (E' : program_spec O o files = (out, tot)) by congruence. clear E.
+    destruct (program_total_bytes O o files D Hs) as [B1 B2]. rewrite E' in B1, B2. cbn [fst snd] in B1, B2.
+    destruct (program_counters O o files Hs) as (C1 & C2 & C3 & C4 & _). rewrite E' in C1, C2, C3, C4. cbn [snd] in C1, C2, C3, C4.
+    cbv zeta. repeat split; assumption.
   Qed.
 
   Theorem program_m_strip cap bs sched sched0 o files out tot out0 tot0 :
-    (0 < bs)%N -> domain dated dtspan files -> gate_passed dated bs files ->
-    complete dated dtspan cap o files sched ->
-    complete dated dtspan cap (undecorated_opts o) files sched0 ->
-    program_m dated dtspan cap bs sched o files = POk (out, tot) ->
-    program_m dated dtspan cap bs sched0 (undecorated_opts o) files = POk (out0, tot0) ->
+    (0 < bs)%N -> domain O o files -> gate_passed O bs files ->
+    complete O cap o files sched ->
+    complete O cap (undecorated_opts o) files sched0 ->
+    program_m O cap bs sched o files = POk (out, tot) ->
+    program_m O cap bs sched0 (undecorated_opts o) files = POk (out0, tot0) ->
     let c := op_cli o in
-    let evs := spec_events dated dtspan o files in
+    let evs := spec_events O o files in
     Print.strip_msgs (Summary.shape_of c (Summary.popt_of c (sources_of files) evs) evs) (Print.payload out)
     = Some (Print.payload out0).
   Proof.
-    intros H D G C C0 E E0. rewrite program_correct in E, E0 by assumption.
-    assert (E' : program_spec dated dtspan o files = (out, tot)) by congruence.
-    assert (E0' : program_spec dated dtspan (undecorated_opts o) files = (out0, tot0)) by congruence.
-    clear E E0. destruct D as [SP _].
-    pose proof (program_strip dated dtspan SP o files) as S. cbv zeta in *. rewrite E', E0' in S. exact S.
+    intros H D G C C0 E E0. rewrite program_correct in E by assumption.
+    rewrite (program_correct O cap bs sched0 (undecorated_opts o) files H (domain_undecorated O o files D) G C0) in E0.
+    assert (E' : program_spec O o files = (out, tot)) by congruence.
+    assert (E0' : program_spec O (undecorated_opts o) files = (out0, tot0)) by congruence.
+    clear E E0.
+    pose proof (program_strip O o files D) as S. cbv zeta in *. rewrite E', E0' in S. exact S.
   Qed.
 End Corollaries.
 
-
-(* ######################################################################## part 9 *)
 (* colour never: stdout is plain bytes — for every line its prefix, then the line; separator; newline *)
 Lemma render_plain c popt evs : (forall i, Print.o_colour (popt i) = false) ->
   Forall SummaryProofs.ev_ok evs ->
@@ -1398,13 +1783,141 @@ Proof.
   rewrite IH, !PrintSem.obs_app, <- !app_assoc. reflexivity.
 Qed.
 
-Theorem spec_stdout_plain dated dtspan o files : span_ok dtspan -> Summary.c_colour (op_cli o) = false ->
+Theorem spec_stdout_plain O o files : domain O o files -> Summary.c_colour (op_cli o) = false ->
   let c := op_cli o in
-  let evs := spec_events dated dtspan o files in
-  fst (program_spec dated dtspan o files) =
+  let evs := spec_events O o files in
+  fst (program_spec O o files) =
   Print.obs (render_bytes c (Summary.popt_of c (sources_of files) evs) evs).
 Proof.
-  intros SP Hc. cbv zeta. unfold program_spec. cbn [fst]. apply render_plain.
+  intros D Hc. cbv zeta. unfold program_spec. cbn [fst]. apply render_plain.
   - intro i. exact Hc.
-  - eapply sim_ev_ok. apply spec_events_sim. exact SP.
+  - eapply sim_ev_ok. apply spec_events_sim. exact D.
 Qed.
+
+
+(* ######################################################################## part 10: year-less text logs (C11) *)
+(* "the datetime window and the cross-file merge use the inferred dates": the spec groups of a
+   year-less file under the derived oracle [yl_dated] are the groups found with "a year-less
+   pattern matches the line", and their instants are, message by message, the ones
+   Year.assign_years (process_missing_year, C11) infers — provided equal head lines do not occur
+   twice (the oracle is a function of the line's bytes). *)
+
+(* the instant of a group is what the oracle says of its head line; grouping depends only on WHICH
+   lines are dated *)
+Lemma groups_heads d ls : Forall (fun g : group => d (hd [] (snd g)) = Some (fst g)) (snd (groups d ls)).
+Proof.
+  induction ls as [|l r IH]; [constructor|]. rewrite SyslinesProofs.groups_cons.
+  destruct (d l) eqn:D; cbn [snd]; [|exact IH]. constructor; [exact D|exact IH].
+Qed.
+
+Lemma groups_same_lines d1 d2 ls : (forall l, In l ls -> (d1 l = None <-> d2 l = None)) ->
+  fst (groups d1 ls) = fst (groups d2 ls) /\ map snd (snd (groups d1 ls)) = map snd (snd (groups d2 ls)).
+Proof.
+  induction ls as [|l r IH]; intro H; [split; reflexivity|].
+  destruct IH as [I1 I2]; [intros x Hx; apply H; right; exact Hx|].
+  rewrite !SyslinesProofs.groups_cons. pose proof (H l (or_introl eq_refl)) as HL.
+  destruct (d1 l) eqn:D1; destruct (d2 l) eqn:D2; cbn [fst snd map].
+  - rewrite I1, I2. split; reflexivity.
+  - exfalso. destruct HL as [_ HL]. specialize (HL eq_refl). discriminate.
+  - exfalso. destruct HL as [HL _]. specialize (HL eq_refl). discriminate.
+  - rewrite I1, I2. split; reflexivity.
+Qed.
+
+Lemma assoc_combine_nth (ks : list bytes) : NoDup ks -> forall (vs : list Z) k (d : bytes),
+  (k < length ks)%nat -> length vs = length ks ->
+  assoc (nth k ks d) (combine ks vs) = Some (nth k vs 0%Z).
+Proof.
+  induction 1 as [|x ks NI ND IH]; intros vs k d L E; [cbn in L; lia|].
+  destruct vs as [|v vs]; [discriminate|]. cbn [combine assoc]. destruct k as [|k].
+  - cbn [nth]. rewrite beqb_refl. reflexivity.
+  - cbn [nth]. destruct (beqb (nth k ks d) x) eqn:B.
+    + exfalso. apply beqb_eq in B. apply NI. rewrite <- B. apply nth_In. cbn in L. lia.
+    + apply IH; cbn in L, E; lia.
+Qed.
+
+Section Yearless.
+  Variable O : oracles.
+
+  Lemma heads_dated (f : file) : Forall (fun h => o_ydate O h <> None) (yl_heads O f).
+  Proof.
+    unfold yl_heads. apply Forall_map. pose proof (groups_heads (ydated0 O) (lines f)) as H.
+    unfold syslines. eapply Forall_impl; [|exact H]. intros g E. unfold ydated0 in E.
+    destruct (o_ydate O (hd [] (snd g))); [discriminate|discriminate].
+  Qed.
+
+  Lemma yl_msgs_length (f : file) : length (yl_msgs O f) = length (yl_heads O f).
+  Proof.
+    unfold yl_msgs. pose proof (heads_dated f) as H. induction H as [|h r Hh _ IH]; [reflexivity|].
+    cbn [flat_map]. destruct (o_ydate O h); [|congruence]. cbn. rewrite IH. reflexivity.
+  Qed.
+
+  Theorem yearless_instants off mtime (f : file) ys :
+    Year.assign_years 2 off (Year.year_of_seconds off mtime) (yl_msgs O f) = Some ys ->
+    NoDup (yl_heads O f) ->
+    yl_table O off mtime f = Some (combine (yl_heads O f) (map snd ys)) /\
+    map snd (syslines (yl_dated O (combine (yl_heads O f) (map snd ys))) f) = map snd (syslines (ydated0 O) f) /\
+    map fst (syslines (yl_dated O (combine (yl_heads O f) (map snd ys))) f) = map snd ys.
+  Proof.
+    intros AY ND. set (tab := combine (yl_heads O f) (map snd ys)).
+    assert (LEN : length (map snd ys) = length (yl_heads O f)).
+    { rewrite map_length, <- yl_msgs_length. unfold Year.assign_years in AY.
+      destruct (Year.walk 2 off (Year.year_of_seconds off mtime) None (rev (yl_msgs O f))) as [l|] eqn:W; [|discriminate].
+      cbn in AY. inversion AY; subst. rewrite rev_length, (YearProofs.walk_length _ _ _ _ _ _ W), rev_length. reflexivity. }
+    split; [unfold yl_table; rewrite AY; reflexivity|].
+    (* every line a year-less pattern matches is a head, hence in the table *)
+    assert (INH : forall l, In l (lines f) -> o_ydate O l <> None -> In l (yl_heads O f)).
+    { intros l. unfold yl_heads, syslines. generalize (lines f) as ls. induction ls as [|x r IH]; intros I D; [destruct I|].
+      rewrite SyslinesProofs.groups_cons. unfold ydated0 at 1.
+      destruct I as [<-|I].
+      - destruct (o_ydate O x); [|congruence]. cbn. left. reflexivity.
+      - destruct (o_ydate O x); cbn [option_map snd map]; [right|]; apply IH; assumption. }
+    assert (TAB : forall k, (k < length (yl_heads O f))%nat ->
+                  yl_dated O tab (nth k (yl_heads O f) []) = Some (nth k (map snd ys) 0%Z)).
+    { intros k L. unfold yl_dated. pose proof (heads_dated f) as HD. rewrite Forall_forall in HD.
+      destruct (o_ydate O (nth k (yl_heads O f) [])) eqn:D; [|exfalso; eapply HD; [apply nth_In; exact L|exact D]].
+      apply assoc_combine_nth; assumption. }
+    assert (SAME : forall l, In l (lines f) -> (yl_dated O tab l = None <-> ydated0 O l = None)).
+    { intros l I. unfold ydated0. split.
+      - intro E. destruct (o_ydate O l) eqn:D; [|reflexivity]. exfalso.
+        assert (IH : In l (yl_heads O f)) by (apply INH; [exact I|congruence]).
+        destruct (In_nth _ _ [] IH) as (k & L & EK). rewrite <- EK in E. rewrite (TAB k L) in E. discriminate.
+      - unfold yl_dated. destruct (o_ydate O l); [discriminate|reflexivity]. }
+    destruct (groups_same_lines (yl_dated O tab) (ydated0 O) (lines f) SAME) as [_ G2].
+    split; [exact G2|].
+    (* instants: group k's head is head k *)
+    pose proof (groups_heads (yl_dated O tab) (lines f)) as GH. fold (syslines (yl_dated O tab) f) in GH.
+    assert (HE : map (fun g : group => hd [] (snd g)) (syslines (yl_dated O tab) f) = yl_heads O f).
+    { assert (MM : forall l : list group, map (fun g : group => hd ([] : list N) (snd g)) l
+                                          = map (@hd (list N) []) (map (@snd Z (list (list N))) l))
+        by (intro l; rewrite map_map; reflexivity).
+      unfold yl_heads. rewrite !MM. unfold syslines. rewrite G2. reflexivity. }
+    apply (nth_ext _ _ 0%Z 0%Z).
+    - rewrite map_length, LEN, <- HE, map_length. reflexivity.
+    - intros k L. rewrite map_length in L.
+      assert (LK : (k < length (yl_heads O f))%nat) by (rewrite <- HE, map_length; exact L).
+      rewrite Forall_forall in GH.
+      pose proof (GH (nth k (syslines (yl_dated O tab) f) (0%Z, [])) (nth_In _ _ L)) as E.
+      assert (HK : hd [] (snd (nth k (syslines (yl_dated O tab) f) (0%Z, []))) = nth k (yl_heads O f) []).
+      { rewrite <- HE. symmetry.
+        exact (map_nth (fun g : group => hd ([] : list N) (snd g)) (syslines (yl_dated O tab) f) (0%Z, []) k). }
+      rewrite HK, (TAB k LK) in E. inversion E as [E1].
+      rewrite E1. exact (map_nth (@fst Z (list (list N))) (syslines (yl_dated O tab) f) (0%Z, []) k).
+  Qed.
+
+  (* with C11's theorem 5: when the true (year, message) sequence of the file satisfies C11's gap
+     hypothesis and the modification time lies in the last message's year, the instants the
+     window and the merge use are the TRUE instants *)
+  Corollary yearless_true_instants off mtime (f : file) (tm : list (Z * Year.ymsg)) :
+    YearProofs.seq_ok off tm -> map snd tm = yl_msgs O f ->
+    Year.year_of_seconds off mtime = fst (last tm (0%Z, Year.mkMsg 0 0 0)) ->
+    NoDup (yl_heads O f) ->
+    exists tab, yl_table O off mtime f = Some tab /\
+      map fst (syslines (yl_dated O tab) f) = map (YearProofs.instant_of off) tm.
+  Proof.
+    intros SQ MS YR ND.
+    pose proof (YearProofs.assign_true_years_lemma off tm SQ) as AY. rewrite <- YR, MS in AY.
+    destruct (yearless_instants off mtime f _ AY ND) as (T & _ & I).
+    eexists. split; [exact T|]. rewrite I, map_map. reflexivity.
+  Qed.
+End Yearless.
+
